@@ -9,13 +9,14 @@ commute, whose logicals commute with the stabilizers and anticommute with each o
 Rank clause, for all sizes: the generators at all stabilizer locations are independent (`generators_independent`, via a
 triangular family of single-qubit probes) and there are exactly `n − k` of them
 (`generators_count`).  `valid_code` puts everything together through the generic bridge
-`Proofs/Lat2DBridgeB.lean` (`symp (to_bsf a) (to_bsf b) = opAntiCount a b mod 2` for dicts with
-distinct keys; independent sub-family of `n − k` commuting rows ⇒ GF(2) rank `n − k`): the matrices
+`Proofs/OpComm.lean` (`symp (to_bsf a) (to_bsf b) = opAntiCount a b mod 2` for dicts with distinct
+keys ⇒ `CommPairL` of the assembled rows) and `Proofs/Lat2DRankBridge.lean` (operator-level
+independent sub-family of `n − k` generators ⇒ `HasRank (2n) rowsH (n − k)`): the matrices
 that `stabilizer_matrix`, `logicals_x`, `logicals_z` of the generic code model (`Model/Code.lean`,
 C02) assemble from this lattice model form a valid `[[n, k]]` stabilizer code (`ValidCodeL`: all
 four clauses of C01, rank included) for EVERY size of the family.
 -/
-import PanqecVerif.Proofs.Lat2DBridgeB
+import PanqecVerif.Proofs.Lat2DRankBridge
 import PanqecVerif.Proofs.LatPlanar2DCodeRank
 
 namespace Panqec.C01Planar2DCode
@@ -69,13 +70,15 @@ theorem generators_count (Lx Ly : Nat) (hx : 1 ≤ Lx) (hy : 1 ≤ Ly) :
     the generators, `ω(X_i, Z_j) = δ_ij`, `ω(X_i, X_j) = ω(Z_i, Z_j) = 0`, and the generators
     have GF(2) rank `n − k` -/
 theorem valid_code (Lx Ly : Nat) (hx : 1 ≤ Lx) (hy : 1 ≤ Ly) :
-    stabilizerMatrix (lattice Lx Ly).toCodeData = some (matH (lattice Lx Ly)) ∧
-    logicalsX (lattice Lx Ly).toCodeData = some (matX (lattice Lx Ly)) ∧
-    logicalsZ (lattice Lx Ly).toCodeData = some (matZ (lattice Lx Ly)) ∧
-    ValidCodeL (lattice Lx Ly).toCodeData.n (lattice Lx Ly).toCodeData.k
-      (matH (lattice Lx Ly)) (matX (lattice Lx Ly)) (matZ (lattice Lx Ly)) :=
-  validCode_of_lattice (lattice Lx Ly) (wf Lx Ly hx hy) (commPair Lx Ly hx hy)
+    stabilizerMatrix (lattice Lx Ly).toCodeData = some (lattice Lx Ly).rowsH ∧
+    logicalsX (lattice Lx Ly).toCodeData = some (lattice Lx Ly).rowsX ∧
+    logicalsZ (lattice Lx Ly).toCodeData = some (lattice Lx Ly).rowsZ ∧
+    ValidCodeL (Lx * Ly + (Lx - 1) * (Ly - 1)) 1
+      (lattice Lx Ly).rowsH (lattice Lx Ly).rowsX (lattice Lx Ly).rowsZ := by
+  have h := validCode_of_lattice (lattice Lx Ly) (wf Lx Ly hx hy) (commPair Lx Ly hx hy)
     (lattice Lx Ly).stabs (List.Sublist.refl _) (generators_independent Lx Ly) (generators_count Lx Ly hx hy)
+  rw [n_formula, k_value] at h
+  exact h
 
 /-- `is_qubit` in closed form -/
 theorem isQubit_rule (Lx Ly : Nat) (x y : Int) :
@@ -141,7 +144,7 @@ example : (lattice 3 2).toCodeData.n = 8 := by decide
 example : getDeformation "XZZX" "y" [2, 1] = some PauliMap.swapXZ := by decide
 example : IndepGenerators (lattice 3 2) (lattice 3 2).stabs := generators_independent 3 2
 example : (lattice 3 2).stabs.length = 7 := by decide
-example : ValidCodeL 8 1 (matH (lattice 3 2)) (matX (lattice 3 2)) (matZ (lattice 3 2)) :=
-  (valid_code 3 2 (by decide) (by decide)).2.2.2
+example : ValidCodeL 8 1 (lattice 3 2).rowsH (lattice 3 2).rowsX
+    (lattice 3 2).rowsZ := (valid_code 3 2 (by decide) (by decide)).2.2.2
 
 end Panqec.C01Planar2DCode
